@@ -15,8 +15,11 @@ class TlcError(Exception):
     """machinery failure (parse error, crash, timeout) - never a verdict"""
 
 
-def tlc_cmd(module, cfg, workers=1, metadir=None, extra=(), deque=False, heap="2g"):
+def tlc_cmd(module, cfg, workers=1, metadir=None, extra=(), deque=False, heap="2g", tmpdir=None):
     cmd = ["java", "-XX:+UseParallelGC", "-Xmx" + heap]
+    if tmpdir:
+        # TLC leaves one /tmp/tlc-<n> directory behind per run; keep them in a scratch directory that run() removes
+        cmd.append("-Djava.io.tmpdir=" + tmpdir)
     if deque:
         cmd.append("-Dtlc2.tool.queue.IStateQueue=StateDeque")
     cmd += ["-cp", JAR, "tlc2.TLC", "-workers", str(workers), "-noGenerateSpecTE",
@@ -32,19 +35,24 @@ def run(module, cfg, workers=1, env=None, extra=(), timeout=3600, tag=None, dequ
     tag = tag or ("%s-%d-%d" % (os.path.basename(module), os.getpid(), int(time.time() * 1000) % 1000000))
     metadir = os.path.join(OUT, "meta-" + tag)
     shutil.rmtree(metadir, ignore_errors=True)
+    tmpdir = metadir + "-tmp"
+    shutil.rmtree(tmpdir, ignore_errors=True)
+    os.makedirs(tmpdir, exist_ok=True)
     e = dict(os.environ)
     if env:
         e.update(env)
     t0 = time.time()
     try:
-        p = subprocess.run(tlc_cmd(module, cfg, workers, metadir, extra, deque, heap), cwd=SPEC, env=e,
+        p = subprocess.run(tlc_cmd(module, cfg, workers, metadir, extra, deque, heap, tmpdir), cwd=SPEC, env=e,
                            stdout=subprocess.PIPE, stderr=subprocess.STDOUT, timeout=timeout, text=True)
     except subprocess.TimeoutExpired:
         shutil.rmtree(metadir, ignore_errors=True)
+        shutil.rmtree(tmpdir, ignore_errors=True)
         raise TlcError("TLC timeout on %s / %s" % (module, cfg))
     finally:
         pass
     shutil.rmtree(metadir, ignore_errors=True)
+    shutil.rmtree(tmpdir, ignore_errors=True)
     res = {"rc": p.returncode, "out": p.stdout, "wall_s": time.time() - t0}
     res.update(parse_stats(p.stdout))
     return res
